@@ -452,6 +452,14 @@ class Normalizer(ast.NodeTransformer):
         # a, b = (e1, e2)   ->   a = e1 ; b = e2      (no ei reads a target)
         if (
             len(node.targets) == 1 and isinstance(node.targets[0], (ast.Tuple, ast.List)) and isinstance(node.value, (ast.Tuple, ast.List))
+            and len(node.targets[0].elts) == len(node.value.elts) >= 2 and all(isinstance(t, ast.Attribute) and _plain_ref(t) for t in node.targets[0].elts)
+            and all(isinstance(e, ast.Constant) or isinstance(e, (ast.Dict, ast.List, ast.Set)) and not (getattr(e, "elts", None) or getattr(e, "keys", None)) for e in node.value.elts)
+            and len({ast.unparse(t) for t in node.targets[0].elts}) == len(node.targets[0].elts)
+        ):
+            # self.a, self.b, self.c = {}, {}, None   ->   three stores (fresh literals read nothing)
+            return [ast.copy_location(ast.Assign(targets=[t], value=e), node) for t, e in zip(node.targets[0].elts, node.value.elts)]
+        if (
+            len(node.targets) == 1 and isinstance(node.targets[0], (ast.Tuple, ast.List)) and isinstance(node.value, (ast.Tuple, ast.List))
             and len(node.targets[0].elts) == len(node.value.elts) >= 2 and all(isinstance(t, ast.Name) for t in node.targets[0].elts)
             and not any(isinstance(e, ast.Starred) for e in node.value.elts)
         ):
